@@ -109,7 +109,7 @@ def family(tier):
                                 "(deflayer l1 _ (multi lsft y))", qmax=3)
     add("holdfor", "ab", "(defvirtualkeys v lsft)\n(deflayer l0 (hold-for-duration 3 v) x)", qmax=3)
     add("onidle", "ab", "(defvirtualkeys v S-x)\n(deflayer l0 (on-idle 3 tap-vkey v) y)", qmax=2, quick=False)
-    add("mouse", "ab", "(deflayer l0 mlft (multi mrgt lsft mltp))", qmax=3)
+    add("mouse", "ab", "(deflayer l0 mlft (multi mrgt lsft mltp))", qmax=3, quick=False)
     add("release_state", "abc", "(deflayer l0 (multi lsft (layer-while-held l1)) (multi x (release-key lsft)) z)\n"
                                 "(deflayer l1 _ (multi y (release-layer l1)) lctl)", qmax=3, quick=False)
     add("repeat", "ab", "(deflayer l0 S-x rpt)", qmax=3, quick=False)
@@ -134,36 +134,64 @@ def family(tier):
     add("custom_x_taphold", "ab", "(deflayer l0 (multi mlft (tap-hold 0 3 x mrgt)) y)", qmax=2)
     add("custom_x_chordv1", "ab", "(defchords g 3 (a) mrgt (b) x (a b) mlft)\n(deflayer l0 (chord g a) (chord g b))",
         qmax=3, quick=False)
-    add("macro_ring", "a", "(deflayer l0 (macro S-(x 9 y)))", qmax=1, quick=False)
     add("holdfor_x_oneshot", "ab", "(defvirtualkeys v (one-shot 2 lsft))\n(deflayer l0 (hold-for-duration 3 v) x)",
         qmax=3, osbound=3, quick=False)
     return F
 
 
-def mc_part(res, tier, wd, rng):
-    witness_jobs = []
-    for name, kbd, keynames, io in family(tier):
+def mc_one(name, kbd, keynames, io, wd):
+    keys = [cfgdesc.code(k) for k in keynames]
+    params = text_params(kbd)
+    inst = {"name": "c01_" + name, "kbd": kbd, "keys": keys, "qmax": io.get("qmax", 3),
+            "monitor": {"module": MON, "params": params}, "invariants": []}
+    if "track_hist" in io:      # switch on held keys only: the key history need not be in the model state
+        inst["track_hist"] = io["track_hist"]
+    if io.get("custom_th"):
+        inst["custom_th"] = io["custom_th"]
+    if io.get("seqbound"):
+        # overlapping macros multiply the cursor positions: the exhaustive instances stop at `seqbound`
+        # simultaneously running macros, the burst scripts go beyond the 4-slot ring on the real code
+        inst["constraint"] = "SeqBound"
+        inst["extra_defs"] = "SeqBound == Len(K.L.seqs) <= %d" % io["seqbound"]
+    if io.get("osbound"):
+        # re-pressing a one-shot key stacks coordinates up to the 16-entry ring: the exhaustive instances stop
+        # at 3 stacked entries, the burst scripts below go beyond 16 on the real code
+        b = io["osbound"]
+        inst["constraint"] = "OsBound"
+        inst["extra_defs"] = ("OsBound == Len(K.L.os.keys) <= %d /\\ Len(K.L.os.other) <= %d /\\ "
+                              "Len(K.L.os.released) <= %d" % (b, b, b))
+    # one work directory per instance: the instances are checked concurrently
+    iwd = os.path.join(wd, "mc_" + name)
+    os.makedirs(iwd, exist_ok=True)
+    r = mc.check_instance(inst, iwd, workers=4, timeout=int(os.environ.get("C01_TLC_TIMEOUT", "1500")))
+    return name, kbd, params, r
+
+
+def family_random_jobs(tier, rng):
+    """random physically consistent histories on the configurations of the exhaustive family (beyond the
+    pending-event bound of the instances)"""
+    jobs = []
+    n = 12 if tier == "quick" else 150
+    for name, kbd, keynames, io in family("thorough"):
         keys = [cfgdesc.code(k) for k in keynames]
-        params = text_params(kbd)
-        inst = {"name": "c01_" + name, "kbd": kbd, "keys": keys, "qmax": io.get("qmax", 3),
-                "monitor": {"module": MON, "params": params}, "invariants": []}
-        if "track_hist" in io:      # switch on held keys only: the key history need not be in the model state
-            inst["track_hist"] = io["track_hist"]
-        if io.get("custom_th"):
-            inst["custom_th"] = io["custom_th"]
-        if io.get("seqbound"):
-            # overlapping macros multiply the cursor positions: the exhaustive instances stop at `seqbound`
-            # simultaneously running macros, the burst scripts go beyond the 4-slot ring on the real code
-            inst["constraint"] = "SeqBound"
-            inst["extra_defs"] = "SeqBound == Len(K.L.seqs) <= %d" % io["seqbound"]
-        if io.get("osbound"):
-            # re-pressing a one-shot key stacks coordinates up to the 16-entry ring: the exhaustive instances stop
-            # at 3 stacked entries, the burst scripts below go beyond 16 on the real code
-            b = io["osbound"]
-            inst["constraint"] = "OsBound"
-            inst["extra_defs"] = ("OsBound == Len(K.L.os.keys) <= %d /\\ Len(K.L.os.other) <= %d /\\ "
-                                  "Len(K.L.os.released) <= %d" % (b, b, b))
-        r = mc.check_instance(inst, wd, workers=8, timeout=int(os.environ.get('C01_TLC_TIMEOUT', '1500')))
+        p = text_params(kbd)
+        nums = sorted(set(int(t) for t in tokens(kbd) if re.fullmatch(r"\d+", t)))
+        gaps = [0, 0, 1, 1, 2] + [g for x in nums for g in (max(x - 1, 0), x, x + 1)] + [3 * max(nums + [1])]
+        scripts = [rand_history(rng, keys, rng.randint(4, 30 if tier == "quick" else 150), gaps, tail=bound_of(p) + 30,
+                                repeat_p=0.1) for _ in range(n)]
+        jobs.append({"cfg": kbd, "params": p, "tag": "f:" + name, "scripts": scripts})
+    return jobs
+
+
+def mc_part(res, tier, wd, rng):
+    from concurrent.futures import ThreadPoolExecutor
+    build_harness()
+    cfgdesc.keytable()
+    fam = family(tier)
+    with ThreadPoolExecutor(max_workers=4) as ex:
+        results = list(ex.map(lambda f: mc_one(f[0], f[1], f[2], f[3], wd), fam))
+    witness_jobs = []
+    for name, kbd, params, r in results:
         res.add_instance(r)
         log("[C01] %-22s states=%s edges=%s drift=%s monerr=%s panic=%s tlc=%ss wall=%ss bound=%d" % (
             name, r["states"], r.get("edges"), r.get("drift"), r["n_monerr"], r["n_panic"], r["tlc_wall_s"],
@@ -171,14 +199,31 @@ def mc_part(res, tier, wd, rng):
         if len(res.samples) < 4:
             res.samples.append({"instance": name, "kbd": kbd, "states": r["states"], "edges": r.get("edges"),
                                 "bound": bound_of(params)})
-        ws = flow.witness_scripts(r["monerr_file"], 20) + flow.witness_scripts(r["panic_file"], 5)
-        scripts = [flow.hist_to_script(w["h"], bound_of(params) + 50) for w in ws] + \
-                  [flow.hist_to_script(d["h"], bound_of(params) + 50) for d in r.get("drift_samples", [])]
+        # model-level counterexamples (and drifting edges) are replayed on the real code and judged there
+        ws = flow.witness_scripts(r["monerr_file"], 6) + flow.witness_scripts(r["panic_file"], 3)
+        scripts = [quiesce(flow.hist_to_script(w["h"]), 30) for w in ws] + \
+                  [quiesce(flow.hist_to_script(d["h"]), bound_of(params) + 30) for d in r.get("drift_samples", [])]
         if scripts:
             witness_jobs.append({"cfg": kbd, "params": params, "tag": "w:" + name, "scripts": scripts})
     return witness_jobs
 
 
+def quiesce(script, tail):
+    """a model history as a C01 script: ticks merged, every key that is still down released, then the quiet tail"""
+    out, down = [], set()
+    for x in script:
+        if x[0] == "t" and out and out[-1][0] == "t":
+            out[-1] = ["t", out[-1][1] + x[1]]
+        else:
+            out.append(list(x))
+        if x[0] == "d":
+            down.add(x[1])
+        elif x[0] == "u":
+            down.discard(x[1])
+    for k in sorted(down):
+        out += [["u", k], ["t", 1]]
+    out.append(["t", tail])
+    return out
 
 
 # ------------------------------------------------------------------ recording + validation (binding C)
@@ -243,10 +288,14 @@ def record(res, jobs, wd, name, stats):
     rejections [{job, script, line, err}] that are about C01 (panics / harness-level errors are counted: a panic
     is C02's subject, the run simply ends there)"""
     jobs = shard_local_index(jobs)
+    t0 = time.time()
     outs = run_jobs(jobs, wd, name, timeout=3000)
     raw = concat_traces(outs, os.path.join(wd, name + ".raw.ndjson"))
     trace = prep_trace(raw, os.path.join(wd, name + ".trace.ndjson"), stats)
+    t1 = time.time()
     nlines, errs = validate_trace(MON, trace, wd, timeout=3000)
+    log("[C01] %s: recorded %d scripts in %.1fs, %d trace lines validated by TLC in %.1fs" % (
+        name, len(jobs), t1 - t0, nlines, time.time() - t1))
     res.traces_validated += len(jobs)
     res.trace_lines += nlines
     stats["scripts"] += len(jobs)
@@ -279,19 +328,28 @@ def diagnose(job, script, wd):
       macro ring       at the end a FakeKey state (a key pressed by a macro) is left while no macro cursor is active,
                        and the 4-slot ring of macro cursors was full at some moment of the run
       chords v2 flood  the configuration has defchordsv2 and the history has more than 16 events between two ticks
+      os repeat        the stuck keys were pressed at the OS by an OS-repeat event while kanata had them lifted
       twin customs     two Custom-action states created at the same coordinate were removed by one release
       queue overflow   a Custom-action state disappeared while an *input* was handed over (not during a tick):
                        the 32-slot queue overflowed and Layout::event processed the evicted release itself
       otherwise        a summary of the end state (no known finding matches it)"""
     j = dict(job)
     j["scripts"] = [script]
-    j["opts"] = dict(job.get("opts", {}), proj=True, cap=60000)
+    j["opts"] = dict(job.get("opts", {}), proj=True, proj_sparse=True, cap=60000)
     j["tag"] = "diag"
     outs = run_jobs([j], wd, "c01_diag")
     max_nseq, last, cu_lost, cu_twin = 0, None, 0, 0
+    down, rep_pressed = set(), set()
     for rc, jf, of, pj, so in outs:
         for line in open(of):
             r = json.loads(line)
+            for ev in r.get("out", []):
+                if ev[0] == "d":
+                    if r["e"] == "r" and ev[1] not in down:
+                        rep_pressed.add(ev[1])
+                    down.add(ev[1])
+                elif ev[0] == "u":
+                    down.discard(ev[1])
             if "proj" not in r:
                 continue
             p = r["proj"]
@@ -314,6 +372,9 @@ def diagnose(job, script, wd):
         return "macro ring: %d key(s) pressed by a macro left with no active macro after the 4-slot ring was full" % len(fk)
     if "(defchordsv2" in job["cfg"] and run > 16:
         return "chords v2 flood: more than 16 events between two ticks (%d)" % run
+    if down and down <= rep_pressed:
+        return ("os repeat pressed a key that was up at the OS (lifted by unmod / unshift or swallowed by a hidden "
+                "sequence mode) and kanata does not track it: %s" % sorted(down))
     if cu_twin:
         return ("two custom-action states on one coordinate released together (%d time(s)): only the first release "
                 "handler runs" % cu_twin)
@@ -333,8 +394,15 @@ def cfg_shape(kbd):
     return "+".join(fams) or "plain"
 
 
+MAX_REPORTED = 10
+
+
 def handle_errs(res, jobs, errs, label, wd):
-    for e in errs:
+    for e in sorted(errs, key=lambda e: len(script_of(jobs, e["job"], 0)[1])):
+        if len(res.violations) >= MAX_REPORTED:
+            # enough replay files: the remaining rejections are only counted
+            res.extra["rejections_not_reported_individually"] = res.extra.get("rejections_not_reported_individually", 0) + 1
+            continue
         j, s = script_of(jobs, e["job"], 0)
         tag = " [" + diagnose(j, s, wd) + "; cfg shape " + cfg_shape(j["cfg"]) + "]"
         short = re.sub(r": \{.*$", "", e["err"])        # the rule without the key set
@@ -558,7 +626,7 @@ def extra_feature_jobs(tier, rng):
 
 
 def random_jobs(tier, rng, wd, stats):
-    ncfg = 120 if tier == "quick" else 3000
+    ncfg = 90 if tier == "quick" else 3000
     texts, metas = [], []
     for i in range(ncfg):
         d = rng.choice([1, 2, 2, 3, 3])
@@ -570,7 +638,7 @@ def random_jobs(tier, rng, wd, stats):
                             "parser_panics": ast["parser_panics"] + ast["parser_aborts"]}
     names = cfgdesc.keytable()["names"]
     jobs, used = [], set()
-    budget = 2_000_000 if tier == "quick" else 6_000_000      # ticks per script at most (bound + history)
+    budget = 700_000 if tier == "quick" else 6_000_000      # ticks per script at most (bound + history)
     skipped = 0
     for i, (t, m, a) in enumerate(zip(texts, metas, accd)):
         if a is None:
@@ -615,7 +683,8 @@ def run(tier, seed):
     t0 = time.time()
     witness_jobs = mc_part(res, tier, wd, rng)
     log("[C01] model checking part: %.1fs" % (time.time() - t0))
-    parts = [("witness", witness_jobs), ("burst", burst_jobs(tier, rng)), ("extra", extra_feature_jobs(tier, rng))]
+    parts = [("witness", witness_jobs), ("family", family_random_jobs(tier, rng)), ("burst", burst_jobs(tier, rng)),
+             ("extra", extra_feature_jobs(tier, rng))]
     rj, used = random_jobs(tier, rng, wd, stats)
     parts.append(("random", rj))
     for label, jobs in parts:
